@@ -59,12 +59,16 @@ inductive MicroOp where
   | move (d s : Var)                 -- `Assign d := s`: steals `s`, `d` gets the reference (or the error value)
   | assumeNull (v : Var)             -- on the error edge of `Branch IS_ERROR v`
   | assumeOk (v : Var)               -- on the other edge
+  | clobber (v : Var)                -- an op that may run arbitrary code (a call) while `v` holds a reference borrowed
+                                     -- from the heap (`GetAttr`/`LoadMem` … with `is_borrowed`): the owner may have
+                                     -- been rebound, so nobody else is known to keep the object alive any more
 deriving DecidableEq, Repr
 
 /-- the variable a one-variable micro-op acts on (`move`: its destination) -/
 def MicroOp.var : MicroOp → Var
   | .define d _ => d
-  | .incref v | .decref v _ | .steal v | .stealMaybe v | .use v | .useMaybe v | .assumeNull v | .assumeOk v => v
+  | .incref v | .decref v _ | .steal v | .stealMaybe v | .use v | .useMaybe v | .assumeNull v | .assumeOk v
+  | .clobber v => v
   | .move d _ => d
 
 structure Edge where
@@ -142,6 +146,10 @@ def stepVal : MicroOp → CVal → Option (List CVal)
       match c with
       | .undef => none
       | .null => some []
+      | c => some [c]
+  | .clobber _, c =>
+      match c with
+      | .obj n _ => some [.obj n false]
       | c => some [c]
   | .move _ _, _ => none
 
